@@ -271,8 +271,10 @@ class Joiner:
         # facts: keep what the other side entails (after mapping phi-paired symbols)
         mab = {a: b for _, a, b in self.phis}
         mba = {b: a for _, a, b in self.phis}
-        self._facts(A, B, self.sa, mab, self.stale_a, self.dead_in_b)
-        self._facts(B, A, self.sb, mba, self.stale_b, self.dead_in_a)
+        # a symbol that is dead on side X takes the other side's interval in J, so nothing X says
+        # about it may survive (its facts are about values J's interval does not cover)
+        self._facts(A, B, self.sa, mab, self.stale_a | self.dead_in_a, self.dead_in_b)
+        self._facts(B, A, self.sb, mba, self.stale_b | self.dead_in_b, self.dead_in_a)
         # candidate order relations for integer phis (Houdini): p vs common symbols, p vs other phis
         self._new_facts = []
         self._phi_relations(mab, mba)
@@ -478,7 +480,7 @@ class Joiner:
     def _delta0(self, X, extra, sx):
         J = self.J
         iv = {}
-        stale = self.stale_a if X is self.A else self.stale_b
+        stale = (self.stale_a | self.dead_in_a) if X is self.A else (self.stale_b | self.dead_in_b)
         for s, v in X.iv.items():
             if s in stale:
                 continue
